@@ -1,8 +1,8 @@
 package c04
 
 import (
-	"os"
 	"fmt"
+	"os"
 	"runtime/debug"
 	"strings"
 	"testing"
@@ -252,9 +252,10 @@ var groupPrefixes = []string{"/", "/api", "/api/", "/v1", "/a", "/API", "/a/b", 
 var mountPrefixes = []string{"/m1", "/m2", "/m3/", "/M4", "/m5/x", "/:tenant", "/", "", "/v1-", "/api", "/a/b"}
 
 type gen struct {
-	t    *rapid.T
-	ctr  int
-	used map[string]bool // full mount prefixes already used (C04-b territory is avoided by construction)
+	t      *rapid.T
+	ctr    int
+	used   map[string]bool // full mount prefixes already used
+	nested map[string]bool // ... by a sub-app that itself contains a mount (C04-b territory is avoided by construction)
 }
 
 func (g *gen) id() string { g.ctr++; return fmt.Sprintf("h%d", g.ctr) }
@@ -292,12 +293,14 @@ func (g *gen) items(depth int, full string) []Item {
 		default:
 			p := rapid.SampledFrom(mountPrefixes).Draw(t, "mpre")
 			fp := normPrefix(groupPath(full, p))
-			if g.used[fp] && os.Getenv("VK_C04_NOAVOID") == "" {
-				vk.Rec.Excluded("avoided:C04-b(same full mount prefix)")
+			it := Item{Kind: "mount", Path: p, ID: g.id(), Items: g.items(depth-1, groupPath(full, p))}
+			// open finding C04-b needs two sub-apps on one full prefix AND a mount inside one of them: only that is avoided
+			if g.used[fp] && (g.nested[fp] || hasKind(it.Items, "mount")) && os.Getenv("VK_C04_NOAVOID") == "" {
+				vk.Rec.Excluded("avoided:C04-b(same full mount prefix, nested mount)")
 				continue
 			}
 			g.used[fp] = true
-			it := Item{Kind: "mount", Path: p, ID: g.id(), Items: g.items(depth-1, groupPath(full, p))}
+			g.nested[fp] = g.nested[fp] || hasKind(it.Items, "mount")
 			if rapid.IntRange(0, 2).Draw(t, "subcfg") == 0 {
 				it.SubCfg = rapid.IntRange(1, 4).Draw(t, "subcfgv")
 			}
@@ -372,7 +375,7 @@ func fillPath(t *rapid.T, p string) string {
 
 func genCase(t *rapid.T) Case {
 	c := Case{CS: rapid.Bool().Draw(t, "cs"), Strict: rapid.Bool().Draw(t, "strict")}
-	g := &gen{t: t, used: map[string]bool{}}
+	g := &gen{t: t, used: map[string]bool{}, nested: map[string]bool{}}
 	c.Items = g.items(rapid.IntRange(1, 3).Draw(t, "depth"), "")
 	c.Method = rapid.SampledFrom([]string{"GET", "POST"}).Draw(t, "m")
 	var paths []string
